@@ -79,7 +79,7 @@ def merge_single_sample_segments(labels):
 @st.composite
 def seg_case(draw, tier="quick"):
     hi = 14 if tier == "quick" else draw(st.sampled_from([14, 24, 36]))
-    shape = draw(gen.shape2(3, hi))
+    shape = draw(gen.shape2(3, hi, big=0.02, big_pool=[63, 64, 65, 100, 128, 129]))
     samp = draw(gen.sampling(shape))
     wl = samp["wavelength"]
     amp, opd, mask = draw(gen.aperture(shape, wl, min_samples=4))
